@@ -137,6 +137,12 @@ class AffineEval:
             if isinstance(v, Scalar):
                 return Scalar(-v.c, v.m)
             return None
+        if isinstance(e, ast.BinOp) and isinstance(e.op, ast.Pow):
+            b = self.ev(e.left)
+            if isinstance(b, Scalar) and isinstance(e.right, ast.Constant) and isinstance(e.right.value, int):
+                k = e.right.value
+                return Scalar(b.c ** k, tuple((s_, x * k) for s_, x in b.m))
+            return None
         if isinstance(e, ast.BinOp):
             return self.binop(e.op, self.ev(e.left), self.ev(e.right), e)
         if isinstance(e, ast.Call) and isinstance(e.func, ast.Attribute):
@@ -174,6 +180,12 @@ class AffineEval:
                 return a
             if isinstance(b, Affine) and isinstance(a, Scalar) and a.c == 0:
                 return b if isinstance(op, ast.Add) else -b
+            if isinstance(a, Affine) and isinstance(b, Scalar):
+                k = Affine({("1", b.m): b.c})
+                return a + (k if isinstance(op, ast.Add) else -k)
+            if isinstance(b, Affine) and isinstance(a, Scalar):
+                k = Affine({("1", a.m): a.c})
+                return k + (b if isinstance(op, ast.Add) else -b)
             if a is None or b is None:
                 if isinstance(a, Affine) or isinstance(b, Affine):
                     self.unknown.append("unclassified operand in `%s`" % src(node)[:80])
